@@ -97,6 +97,7 @@ fn run_program(case: &Value) -> Value {
     let mut n_answers = 0usize;
     let mut after_nones: Vec<bool> = vec![];
     let mut exhausted = false;
+    let mut end_tick = 0u64;
     match mode {
         "query" => {
             let body: Vec<G> = case["body"]
@@ -120,6 +121,7 @@ fn run_program(case: &Value) -> Value {
                     }
                     None => {
                         exhausted = true;
+                        end_tick = ticks();
                         break;
                     }
                 }
@@ -147,6 +149,7 @@ fn run_program(case: &Value) -> Value {
                     }
                     None => {
                         exhausted = true;
+                        end_tick = ticks();
                         break;
                     }
                 }
@@ -160,7 +163,8 @@ fn run_program(case: &Value) -> Value {
         other => panic!("harness: unknown mode {}", other),
     }
     json!({"case": id, "k": "end", "kind": if exhausted {"exhausted"} else {"take"},
-           "n": n_answers, "after": after_nones, "tick": ticks(), "msg": "", "loc": ""})
+           "n": n_answers, "after": after_nones, "tick": if exhausted { end_tick } else { ticks() },
+           "msg": "", "loc": ""})
 }
 
 fn run_case(case: &Value) -> Vec<Value> {
